@@ -98,6 +98,9 @@ class C09(Prop):
         if not baseline_ok:
             out.count("baseline_differs_from_truth")
         for name, kc in spec.get("variants", []):
+            if lane.expired():
+                out.count("enumeration_truncated_by_budget")
+                break
             s2 = copy.deepcopy(spec)
             s2["keychan"] = {k: v for k, v in kc.items() if k != "cwd"}
             ex = world.expand(s2)
